@@ -90,7 +90,8 @@ pub fn check_tree(tree: &SyntaxTree, text: &str) -> Result<(usize, usize), (Stri
 
 #[derive(Clone, Debug)]
 enum Part {
-    Begin(usize),
+    /// version index, and what stands between the closing quote and the next word ("" = glued)
+    Begin(usize, &'static str),
     End,
     Kept(&'static str),
     /// a compilation-unit item written in SystemVerilog syntax (only generated where an 1800-* set is in force)
@@ -116,7 +117,7 @@ fn render(parts: &[Part]) -> String {
     let mut s = String::new();
     for p in parts {
         match p {
-            Part::Begin(v) => s.push_str(&format!("`begin_keywords \"{}\"\n", VERSIONS[*v].0)),
+            Part::Begin(v, sep) => s.push_str(&format!("`begin_keywords \"{}\"{}", VERSIONS[*v].0, sep)),
             Part::End => s.push_str("`end_keywords\n"),
             Part::Kept(k) => {
                 s.push_str(k);
@@ -175,7 +176,9 @@ fn gen_regions(t: &mut Tape) -> Gen13 {
                 if stack.len() < 3 {
                     let v = t.below(8);
                     stack.push(v);
-                    g.parts.push(Part::Begin(v));
+                    // the next word may stand directly behind the closing quote
+                    let sep = *t.pick(&["\n", "\n", "\n", "", " ", "/* c */", "\t// c\n"]);
+                    g.parts.push(Part::Begin(v, sep));
                 }
             }
             2 => {
@@ -189,7 +192,15 @@ fn gen_regions(t: &mut Tape) -> Gen13 {
                 // A lone timeunit / timeprecision is tried as the two-declaration form first, so the white space
                 // behind it (which may hold the next `begin_keywords / `end_keywords) is parsed more than once.
                 let v = stack.last().copied().unwrap_or(7);
-                if v >= 4 {
+                let later = later_only(v);
+                if !later.is_empty() && t.chance(1, 2) {
+                    // a word that only a later standard reserves, used as the name of a user-defined type:
+                    // the first word of an item, so it may stand directly behind a `begin_keywords directive
+                    g.counter += 1;
+                    let w = *t.pick(&later);
+                    g.later_used += 1;
+                    g.parts.push(Part::Item(format!("{} cu_v{};", w, g.counter)));
+                } else if v >= 4 {
                     g.counter += 1;
                     let k = g.counter;
                     let item = match t.below(8) {
@@ -323,8 +334,8 @@ impl Prop for C13 {
                 }
                 let text = render(&g.parts);
                 let r = sv::parse_text(Grammar::Sv, &text, false);
-                let distinct_versions: std::collections::BTreeSet<usize> = g.parts.iter().filter_map(|p| if let Part::Begin(v) = p { Some(*v) } else { None }).collect();
-                let has_kept_before_region = g.parts.iter().position(|p| matches!(p, Part::Kept(_))).map(|i| g.parts[i..].iter().any(|p| matches!(p, Part::Begin(_)))).unwrap_or(false);
+                let distinct_versions: std::collections::BTreeSet<usize> = g.parts.iter().filter_map(|p| if let Part::Begin(v, _) = p { Some(*v) } else { None }).collect();
+                let has_kept_before_region = g.parts.iter().position(|p| matches!(p, Part::Kept(_))).map(|i| g.parts[i..].iter().any(|p| matches!(p, Part::Begin(_, _)))).unwrap_or(false);
                 let nontrivial = distinct_versions.len() >= 2 || has_kept_before_region;
                 match (&replaced, r) {
                     (None, Ok((tree, pp))) => {
